@@ -3,9 +3,51 @@ package vsync
 
 import (
 	"fmt"
+	"unsafe"
 
 	"verifmc/vrt"
 )
+
+// parked operations (named types: their methods carry //go:norace, closures cannot)
+type mutexFree struct{ m *Mutex }
+
+//go:norace
+func (w mutexFree) Enabled() bool { return !w.m.locked }
+
+//go:norace
+func (w mutexFree) String() string { return fmt.Sprintf("Lock mutex@%p", w.m) }
+
+type rwWritable struct{ m *RWMutex }
+
+//go:norace
+func (w rwWritable) Enabled() bool { return !w.m.writer && w.m.readers == 0 }
+
+//go:norace
+func (w rwWritable) String() string { return fmt.Sprintf("Lock rwmutex@%p", w.m) }
+
+type rwReadable struct{ m *RWMutex }
+
+//go:norace
+func (w rwReadable) Enabled() bool { return !w.m.writer }
+
+//go:norace
+func (w rwReadable) String() string { return fmt.Sprintf("RLock rwmutex@%p", w.m) }
+
+type onceIdle struct{ o *Once }
+
+//go:norace
+func (w onceIdle) Enabled() bool { return w.o.state != 1 }
+
+//go:norace
+func (w onceIdle) String() string { return fmt.Sprintf("Once.Do@%p", w.o) }
+
+type wgZero struct{ wg *WaitGroup }
+
+//go:norace
+func (w wgZero) Enabled() bool { return w.wg.n == 0 }
+
+//go:norace
+func (w wgZero) String() string { return fmt.Sprintf("WaitGroup.Wait@%p", w.wg) }
 
 type Locker interface {
 	Lock()
@@ -19,17 +61,20 @@ type Mutex struct {
 	hb     uint64
 }
 
+//go:norace
 func (m *Mutex) Lock() {
 	x := vrt.Cur()
 	if x == nil || x.Aborting() {
 		return
 	}
-	x.YieldFn(func() bool { return !m.locked }, func() string { return fmt.Sprintf("Lock mutex@%p", m) })
+	x.YieldOp(mutexFree{m}, mutexFree{m})
 	m.locked = true
 	m.holder = x.Me().ID
 	x.Touch(&m.hb, 1)
+	vrt.RaceAcquire(unsafe.Pointer(m))
 }
 
+//go:norace
 func (m *Mutex) TryLock() bool {
 	x := vrt.Cur()
 	if x == nil || x.Aborting() {
@@ -43,9 +88,11 @@ func (m *Mutex) TryLock() bool {
 	m.locked = true
 	m.holder = x.Me().ID
 	x.Touch(&m.hb, 1)
+	vrt.RaceAcquire(unsafe.Pointer(m))
 	return true
 }
 
+//go:norace
 func (m *Mutex) Unlock() {
 	x := vrt.Cur()
 	if x == nil || x.Aborting() {
@@ -54,6 +101,7 @@ func (m *Mutex) Unlock() {
 	if !m.locked {
 		panic("sync: unlock of unlocked mutex")
 	}
+	vrt.RaceRelease(unsafe.Pointer(m))
 	m.locked = false
 	x.Touch(&m.hb, 2)
 	// releasing is not a scheduling point by itself: the next visible operation of this
@@ -68,16 +116,19 @@ type RWMutex struct {
 	hb      uint64
 }
 
+//go:norace
 func (m *RWMutex) Lock() {
 	x := vrt.Cur()
 	if x == nil || x.Aborting() {
 		return
 	}
-	x.YieldFn(func() bool { return !m.writer && m.readers == 0 }, func() string { return fmt.Sprintf("Lock rwmutex@%p", m) })
+	x.YieldOp(rwWritable{m}, rwWritable{m})
 	m.writer = true
 	x.Touch(&m.hb, 4)
+	vrt.RaceAcquire(unsafe.Pointer(m))
 }
 
+//go:norace
 func (m *RWMutex) Unlock() {
 	x := vrt.Cur()
 	if x == nil || x.Aborting() {
@@ -86,20 +137,24 @@ func (m *RWMutex) Unlock() {
 	if !m.writer {
 		panic("sync: Unlock of unlocked RWMutex")
 	}
+	vrt.RaceRelease(unsafe.Pointer(m))
 	m.writer = false
 	x.Touch(&m.hb, 5)
 }
 
+//go:norace
 func (m *RWMutex) RLock() {
 	x := vrt.Cur()
 	if x == nil || x.Aborting() {
 		return
 	}
-	x.YieldFn(func() bool { return !m.writer }, func() string { return fmt.Sprintf("RLock rwmutex@%p", m) })
+	x.YieldOp(rwReadable{m}, rwReadable{m})
 	m.readers++
 	x.Touch(&m.hb, 6)
+	vrt.RaceAcquire(unsafe.Pointer(m))
 }
 
+//go:norace
 func (m *RWMutex) RUnlock() {
 	x := vrt.Cur()
 	if x == nil || x.Aborting() {
@@ -108,15 +163,20 @@ func (m *RWMutex) RUnlock() {
 	if m.readers <= 0 {
 		panic("sync: RUnlock of unlocked RWMutex")
 	}
+	vrt.RaceReleaseMerge(unsafe.Pointer(m))
 	m.readers--
 	x.Touch(&m.hb, 7)
 }
 
+//go:norace
 func (m *RWMutex) RLocker() Locker { return (*rlocker)(m) }
 
 type rlocker RWMutex
 
-func (r *rlocker) Lock()   { (*RWMutex)(r).RLock() }
+//go:norace
+func (r *rlocker) Lock() { (*RWMutex)(r).RLock() }
+
+//go:norace
 func (r *rlocker) Unlock() { (*RWMutex)(r).RUnlock() }
 
 // Once mirrors sync.Once: concurrent callers block until the first call has returned.
@@ -125,6 +185,7 @@ type Once struct {
 	hb    uint64
 }
 
+//go:norace
 func (o *Once) Do(f func()) {
 	x := vrt.Cur()
 	if x == nil || x.Aborting() {
@@ -135,14 +196,16 @@ func (o *Once) Do(f func()) {
 		}
 		return
 	}
-	x.YieldFn(func() bool { return o.state != 1 }, func() string { return fmt.Sprintf("Once.Do@%p", o) })
+	x.YieldOp(onceIdle{o}, onceIdle{o})
 	if o.state == 2 {
 		x.Touch(&o.hb, 8)
+		vrt.RaceAcquire(unsafe.Pointer(o))
 		return
 	}
 	o.state = 1
 	x.Touch(&o.hb, 9)
 	defer func() {
+		vrt.RaceRelease(unsafe.Pointer(o))
 		o.state = 2
 		if x2 := vrt.Cur(); x2 != nil && !x2.Aborting() {
 			x2.Touch(&o.hb, 10)
@@ -156,7 +219,11 @@ type WaitGroup struct {
 	hb uint64
 }
 
+//go:norace
 func (wg *WaitGroup) Add(d int) {
+	if d < 0 {
+		vrt.RaceReleaseMerge(unsafe.Pointer(wg))
+	}
 	wg.n += d
 	if x := vrt.Cur(); x != nil && !x.Aborting() {
 		x.Touch(&wg.hb, 11)
@@ -166,15 +233,18 @@ func (wg *WaitGroup) Add(d int) {
 	}
 }
 
+//go:norace
 func (wg *WaitGroup) Done() { wg.Add(-1) }
 
+//go:norace
 func (wg *WaitGroup) Wait() {
 	x := vrt.Cur()
 	if x == nil || x.Aborting() {
 		return
 	}
-	x.YieldFn(func() bool { return wg.n == 0 }, func() string { return fmt.Sprintf("WaitGroup.Wait@%p", wg) })
+	x.YieldOp(wgZero{wg}, wgZero{wg})
 	x.Touch(&wg.hb, 12)
+	vrt.RaceAcquire(unsafe.Pointer(wg))
 }
 
 // Map mirrors the subset of sync.Map used by the repository, with insertion-ordered
@@ -185,6 +255,7 @@ type Map struct {
 	hb   uint64
 }
 
+//go:norace
 func (m *Map) point(desc string) bool {
 	x := vrt.Cur()
 	if x == nil || x.Aborting() {
@@ -192,20 +263,26 @@ func (m *Map) point(desc string) bool {
 	}
 	x.Yield(nil, desc)
 	x.Touch(&m.hb, 13)
+	// sync.Map operations synchronise with one another
+	vrt.RaceAcquire(unsafe.Pointer(m))
+	vrt.RaceReleaseMerge(unsafe.Pointer(m))
 	return true
 }
 
+//go:norace
 func (m *Map) Load(k any) (any, bool) {
 	m.point("Map.Load")
 	v, ok := m.vals[k]
 	return v, ok
 }
 
+//go:norace
 func (m *Map) Store(k, v any) {
 	m.point("Map.Store")
 	m.store(k, v)
 }
 
+//go:norace
 func (m *Map) store(k, v any) {
 	if m.vals == nil {
 		m.vals = map[any]any{}
@@ -216,6 +293,7 @@ func (m *Map) store(k, v any) {
 	m.vals[k] = v
 }
 
+//go:norace
 func (m *Map) LoadOrStore(k, v any) (any, bool) {
 	m.point("Map.LoadOrStore")
 	if old, ok := m.vals[k]; ok {
@@ -225,6 +303,7 @@ func (m *Map) LoadOrStore(k, v any) (any, bool) {
 	return v, false
 }
 
+//go:norace
 func (m *Map) LoadAndDelete(k any) (any, bool) {
 	m.point("Map.LoadAndDelete")
 	v, ok := m.vals[k]
@@ -232,11 +311,13 @@ func (m *Map) LoadAndDelete(k any) (any, bool) {
 	return v, ok
 }
 
+//go:norace
 func (m *Map) Delete(k any) {
 	m.point("Map.Delete")
 	m.del(k)
 }
 
+//go:norace
 func (m *Map) del(k any) {
 	if _, ok := m.vals[k]; ok {
 		delete(m.vals, k)
@@ -249,6 +330,7 @@ func (m *Map) del(k any) {
 	}
 }
 
+//go:norace
 func (m *Map) Range(f func(k, v any) bool) {
 	m.point("Map.Range")
 	keys := append([]any{}, m.keys...)
